@@ -4,6 +4,14 @@ import json, sys
 pid, n = sys.argv[1], (sys.argv[2] if len(sys.argv) > 2 else "1")
 rec = next(json.loads(l) for l in open("/verif/properties.jsonl") if json.loads(l)["id"] == pid)
 wt = f"/tmp/seed/{pid}" if n == "1" else f"/tmp/seed/{pid}-{n}"
+prev = ""
+if n != "1":
+    import os
+    mp = f"/verif/seeded/{pid}/meta.json"
+    if os.path.exists(mp):
+        m = json.load(open(mp))
+        prev = (f"\nROUND2 NOTE: an earlier attempt already used this change - do NOT repeat it or a close variant, pick a different "
+                f"site and a different mechanism: {m['change']} (it needed: {m['needs']}).\n")
 print(f"""You are testing how well a software project's safety net catches subtle regressions. The project is the Python library XKNX/xknx (asynchronous KNX/IP library). You have your own scratch git worktree of it at {wt} (work ONLY there; do not look at or touch /repo, /verif or any other directory outside {wt}; run python as /venv/bin/python with PYTHONPATH={wt} so that your worktree's code is imported — check with `PYTHONPATH={wt} /venv/bin/python -c "import xknx; print(xknx.__file__)"`).
 
 Here is a semantic property the library is supposed to satisfy:
@@ -13,6 +21,7 @@ Here is a semantic property the library is supposed to satisfy:
   Quantified over: {rec['quantifier']['text']}
   Code it is anchored in: {', '.join(rec['anchors']['files'])}
 
+{prev}
 Your job: make ONE realistic change to the library source in your worktree (the kind of bug a competent developer could introduce in a refactor or feature commit — small, plausible, not sabotage-looking) that BREAKS this property, while
   (a) the code still imports/compiles, and
   (b) the project's existing test suite still passes exactly as before: run `cd {wt} && /venv/bin/python -m pytest -q -p no:cacheprovider 2>&1 | tail -5` before and after; the two tests test_start_automatic_connection and TestSecureSession::test_lifecycle fail already in this sandbox and may keep failing; nothing else may fail.
